@@ -274,7 +274,13 @@ def run(prop, tier, seed):
         for _ in range(16 if tier == "quick" else 300):
             nn, tmax = rng.choice([2, 3, 4]), rng.choice([6, 10])
             first = [c for c in drivers.rand_history(rng, nn, tmax, rng.randint(3, 8)) if c["op"] != "touch"]
-            again = [c for c in drivers.rand_history(rng, nn, max(2, tmax // 3), rng.randint(2, 6), monotone=1.0) if c["op"] != "touch"]
+            if rng.random() < 0.5:
+                again = [c for c in drivers.rand_history(rng, nn, max(2, tmax // 3), rng.randint(2, 6), monotone=1.0) if c["op"] != "touch"]
+            else:
+                # the same history moved in time: as many distinct instants as before, all of them different
+                k = rng.choice([-3, -2, 2, tmax + 3])
+                again = [dict(c, **{f: c[f] + k for f in ("t", "e") if f in c and c[f] not in (core.NoT, core.NoEnd)}) for c in first
+                         if c["op"] not in ("clear", "clear_edges")]
             calls = first + [{"op": rng.choice(["clear", "clear_edges"])}] + again
             cjobs.append((rng.randrange(1 << 30), rng.random() < 0.5, rng.choice(modes_wanted), calls, rng.choice(LABS)))
         chk.run_jobs(job_history, cjobs, "reuse", chunk=1500)
